@@ -104,10 +104,13 @@ def replay_histories(ctx, cases, thorough):
         vac["requested"] += any(o[1] for o in anyh)
         vac["notrunning_trip"] += (not running) and any(o[0] for o in anyh)
         nontriv = any(o[0] for h in e["ok"] for o in h)          # the suspender trips at least once
+        hsh = hash((cls, _pk, v0, vals))
         for impl in IMPL[cls]:
             for rep in reps_for(cls, thorough):
+                if rep.startswith("np") and hsh % 4:          # numpy scalars: a quarter of the inputs
+                    continue
                 kinds = ["fake"]
-                if rep == "int" and (thorough or hash((cls, _pk, v0, vals)) % 8 == 0):
+                if rep == "int" and hsh % (4 if thorough else 8) == 0:
                     kinds.append("ophyd")
                 for sk in kinds:
                     n_ophyd += sk == "ophyd"
